@@ -306,7 +306,10 @@
 (define (bag-product! n bag)
   (for-each
    (lambda (elt)
-     (hash-table-update! (bag-table bag) elt (lambda (count) (* n count))))
+     (let ((count (* n (hash-table-ref/default (bag-table bag) elt 0))))
+       (if (positive? count)
+           (hash-table-set! (bag-table bag) elt count)
+           (hash-table-delete! (bag-table bag) elt))))
    (hash-table-keys (bag-table bag)))
   bag)
 
